@@ -574,7 +574,7 @@ class FnTr:
                 else:
                     self.bad(st, '`return` on some paths of a branch only')
                 return 'if %s then\n%s\nelse\n%s' % (c, ind(a), ind(b))
-            mod = [n for n in assigned(st.body + st.orelse) if n in env]
+            mod = sorted(n for n in assigned(st.body + st.orelse) if n in env)     # canonical (alphabetical) order
             if not mod:
                 self.bad(st, '`if` without an effect on the variables defined before it')
 
@@ -598,7 +598,7 @@ class FnTr:
             x = st.target.id
             if x in env:
                 self.bad(st, 'loop variable %s shadows a variable' % x)
-            mod = [n for n in assigned(st.body) if n in env]
+            mod = sorted(n for n in assigned(st.body) if n in env)        # canonical (alphabetical) order
             if not mod:
                 self.bad(st, 'for loop without an effect on the variables defined before it')
             env_in = dict(env)
